@@ -338,7 +338,7 @@ def replay(data):
                     ls = _FaultingLS(None, K, k, state, symbolic=False, points=pts)
                     with Patcher() as p2:
                         optim.install_optimizer_stubs(p2, None, src, ls, None)
-                        opt = Optimizer(scheme, verbose=False, raise_exception=cfg["raise_exception"])
+                        opt = Optimizer(scheme, verbose=bool(cfg.get("verbose")), raise_exception=cfg["raise_exception"])
                         exc = res = rexc = None
                         try:
                             opt.optimize()
